@@ -72,3 +72,13 @@ Theorem C04_read_region :
       map cells got = map (fun fs => pyslice (cells fs) (Some c0) (Some c1)) (rows_slice (fa_rows a) r0 r1).
 Proof. exact getitem_region. Qed.
 Print Assumptions C04_read_region.
+
+(* fsarray(strings[, width]) builds the array whose rows show the strings *)
+Theorem C04_fsarray_shows_strings :
+  forall strings width fill,
+    (forall w, width = Some w -> Forall (fun o => op_len o <= w) strings) ->
+    exists a, fsarray_of strings width fill = Ok a
+      /\ fa_cols a = match width with Some w => w | None => fold_left Z.max (map op_len strings) 0 end
+      /\ map cells (fa_rows a) = map (as_fs_cells fill) strings.
+Proof. exact fsarray_shows_strings. Qed.
+Print Assumptions C04_fsarray_shows_strings.
